@@ -473,3 +473,32 @@ func ruleC08CallNil(p *Prog, a *Anchors, r *Report) {
 		}
 	}
 }
+
+// ruleC08InterfaceNil (an obligation of R-C08-CALL): Value.Interface() is what the call protocol takes an argument's
+// type from. It answers nil only for a Value that holds nothing (the invalid reflect.Value); a nil result for every
+// value IsNil() is true for turns a typed nil pointer into the untyped nil, and the parameter-type tests see <nil>.
+func ruleC08InterfaceNil(p *Prog, a *Anchors, r *Report) {
+	f := p.Method("Value", "Interface")
+	if f == nil {
+		return
+	}
+	ok := true
+	var at ssa.Instruction
+	for _, ret := range returnsOf(f) {
+		if len(ret.Results) != 1 || !isNilConst(res(ret, 0)) {
+			continue
+		}
+		invalidOnly := Guarded(ret, func(c ssa.Value, pol bool) bool {
+			cc, isC := c.(*ssa.Call)
+			return isC && !pol && cc.Common().StaticCallee() != nil && p.extName(cc.Common().StaticCallee()) == "(reflect.Value).IsValid"
+		})
+		if !invalidOnly {
+			ok, at = false, ret
+		}
+	}
+	if ok {
+		r.OK("(*Value).Interface:nil-only-when-invalid", p.Pos(f.Pos()), "nil is handed back only for the invalid value")
+	} else {
+		r.Bad("(*Value).Interface:nil-only-when-invalid", p.InstrPos(at), "Value.Interface() answers nil on a path that is not the !IsValid() edge of its reflect.Value: a typed nil pointer comes out as the untyped nil — handed to func(fmt.Stringer) it is the nil interface, handed to func(*T) the call is refused with \"(not <nil>)\"")
+	}
+}
